@@ -720,3 +720,236 @@ theorem evTags_no_post (c : Cfg) (sig : Sig) : ∀ t ∈ evTags c sig, ∀ p, t 
   simp
 
 end SqlObjVerif.Events
+
+/-! ## rows created from inside listeners / callbacks (class B) -/
+namespace SqlObjVerif.Events
+
+theorem projA_append (a b : List XEntry) : projA (a ++ b) = projA a ++ projA b := by simp [projA, List.filterMap_append]
+theorem projB_append (a b : List XEntry) : projB (a ++ b) = projB a ++ projB b := by simp [projB, List.filterMap_append]
+theorem projA_mapb (l : List Entry) : projA (l.map XEntry.b) = [] := by
+  induction l with
+  | nil => rfl
+  | cons x xs ih => simpa [projA] using ih
+theorem projB_mapb (l : List Entry) : projB (l.map XEntry.b) = l := by
+  induction l with
+  | nil => rfl
+  | cons x xs ih => simpa [projB] using ih
+theorem projA_consa (e : Entry) (l : List XEntry) : projA (XEntry.a e :: l) = e :: projA l := by simp [projA]
+theorem projB_consa (e : Entry) (l : List XEntry) : projB (XEntry.a e :: l) = projB l := by simp [projB]
+
+theorem projA_bConstruct (c : Cfg) (LB : List Listener) (n : Nat) : projA (bConstruct c LB n) = [] := projA_mapb _
+theorem projA_bCreated (LB : List Listener) (n : Nat) : projA (bCreated LB n) = [] := projA_mapb _
+
+theorem projA_flush (LB : List Listener) (q : List Nat) : projA (flush LB q) = [] := by
+  induction q with
+  | nil => rfl
+  | cons x xs ih =>
+    simp only [flush, List.flatMap_cons, projA_append, projA_bCreated, List.nil_append] at ih ⊢
+    exact ih
+
+/-- the entries of the operated class are untouched by the spawning listeners -/
+theorem projA_expandNested (c : Cfg) (LB L : List Listener) (es : List Entry) :
+    ∀ nB, projA (expandNested c LB L es nB).1 = es := by
+  induction es with
+  | nil => intro nB; rfl
+  | cons e es ih =>
+    intro nB
+    simp only [expandNested]
+    split
+    · simp [projA_consa, projA_append, projA_bConstruct, ih]
+    · simp [projA_consa, ih]
+
+theorem projA_expandInline (c : Cfg) (LB L : List Listener) (es : List Entry) :
+    ∀ nB, projA (expandInline c LB L es nB).1 = es := by
+  induction es with
+  | nil => intro nB; rfl
+  | cons e es ih =>
+    intro nB
+    simp only [expandInline]
+    split
+    · simp [projA_consa, projA_append, projA_bConstruct, projA_bCreated, ih]
+    · simp [projA_consa, ih]
+
+/-- **with spawning listeners the class's own log, state and outcome are exactly those of `step`** -/
+theorem stepX_projA (c : Cfg) (LB : List Listener) (s : State) (nB : Nat) (op : Op) :
+    (stepX c LB s nB op).1.1 = (step c s op).1
+    ∧ projA (stepX c LB s nB op).1.2.1 = (step c s op).2.1
+    ∧ (stepX c LB s nB op).1.2.2 = (step c s op).2.2 := by
+  cases op with
+  | create kw =>
+    simp only [stepX, step, opCreateX, opCreate]
+    split
+    · simp [projA_append, projA_expandNested, projA_flush]
+    · split
+      · simp [projA_append, projA_expandNested, projA_flush]
+      · simp [projA_append, projA_consa, projA_expandNested, projA_flush]
+  | assign h k v => simp [stepX, projA_expandInline]
+  | set h kw => simp [stepX, projA_expandInline]
+  | syncUpdate h => simp [stepX, projA_expandInline]
+  | sync h => simp [stepX, projA_expandInline]
+  | destroy h => simp [stepX, projA_expandInline]
+  | fetch h => simp [stepX, projA_expandInline]
+  | select => simp [stepX, projA_expandInline]
+
+/-! the rows of class `B` -/
+
+theorem insIds_bConstruct (c : Cfg) (LB : List Listener) (n : Nat) : insIds (projB (bConstruct c LB n)) = [n] := by
+  simp only [bConstruct, projB_mapb, insIds_append, insIds_deliver, insIds_cons_ins, insIds_posts, List.nil_append]
+
+theorem createdEvs_bConstruct (ℓ : Nat) (c : Cfg) (LB : List Listener) (n : Nat) :
+    createdEvs ℓ (projB (bConstruct c LB n)) = [] := by
+  simp only [bConstruct, projB_mapb, createdEvs_append, createdEvs_deliver_other ℓ .create (by decide), createdEvs_cons_ins,
+    createdEvs_posts, List.nil_append]
+
+theorem insIds_bCreated (LB : List Listener) (n : Nat) : insIds (projB (bCreated LB n)) = [] := by
+  simp only [bCreated, projB_mapb, insIds_append, insIds_deliver, insIds_posts, List.nil_append]
+
+theorem createdEvs_bCreated (ℓ : Nat) (LB : List Listener) (hℓ : ℓ ∈ recipients .created 0 LB) (n : Nat) :
+    createdEvs ℓ (projB (bCreated LB n)) = [n] := by
+  simp only [bCreated, projB_mapb, createdEvs_append, createdEvs_deliver ℓ n LB 0 [] [] hℓ, createdEvs_posts, List.append_nil]
+
+theorem flush_B (ℓ : Nat) (LB : List Listener) (hℓ : ℓ ∈ recipients .created 0 LB) (q : List Nat) :
+    insIds (projB (flush LB q)) = [] ∧ createdEvs ℓ (projB (flush LB q)) = q := by
+  induction q with
+  | nil => exact ⟨rfl, rfl⟩
+  | cons x xs ih =>
+    simp only [flush, List.flatMap_cons, projB_append, insIds_append, createdEvs_append, insIds_bCreated,
+      createdEvs_bCreated ℓ LB hℓ] at ih ⊢
+    exact ⟨ih.1, by rw [ih.2]; rfl⟩
+
+/-- nested context: the ids spawned are `nB, nB+1, …`, all of them pending, none delivered yet -/
+theorem expandNested_B (ℓ : Nat) (c : Cfg) (LB L : List Listener) (es : List Entry) :
+    ∀ nB, nB ≤ (expandNested c LB L es nB).2.2
+      ∧ insIds (projB (expandNested c LB L es nB).1) = List.range' nB ((expandNested c LB L es nB).2.2 - nB)
+      ∧ (expandNested c LB L es nB).2.1 = List.range' nB ((expandNested c LB L es nB).2.2 - nB)
+      ∧ createdEvs ℓ (projB (expandNested c LB L es nB).1) = [] := by
+  induction es with
+  | nil => intro nB; simp [expandNested, projB, insIds, createdEvs]
+  | cons e es ih =>
+    intro nB
+    simp only [expandNested]
+    split
+    · obtain ⟨h1, h2, h3, h4⟩ := ih (nB + 1)
+      have hk : (expandNested c LB L es (nB + 1)).2.2 - nB = ((expandNested c LB L es (nB + 1)).2.2 - (nB + 1)) + 1 := by omega
+      refine ⟨by simp only; omega, ?_, ?_, ?_⟩
+      · simp only [projB_consa, projB_append, insIds_append, insIds_bConstruct, h2]
+        rw [hk, List.range'_succ]; rfl
+      · simp only [h3]
+        rw [hk, List.range'_succ]
+      · simp only [projB_consa, projB_append, createdEvs_append, createdEvs_bConstruct, h4, List.append_nil]
+    · obtain ⟨h1, h2, h3, h4⟩ := ih nB
+      exact ⟨h1, by simpa [projB_consa] using h2, h3, by simpa [projB_consa] using h4⟩
+
+/-- outermost context: every spawned row is inserted and its RowCreatedSignal delivered at once -/
+theorem expandInline_B (ℓ : Nat) (c : Cfg) (LB L : List Listener) (hℓ : ℓ ∈ recipients .created 0 LB) (es : List Entry) :
+    ∀ nB, nB ≤ (expandInline c LB L es nB).2
+      ∧ insIds (projB (expandInline c LB L es nB).1) = List.range' nB ((expandInline c LB L es nB).2 - nB)
+      ∧ createdEvs ℓ (projB (expandInline c LB L es nB).1) = insIds (projB (expandInline c LB L es nB).1) := by
+  induction es with
+  | nil => intro nB; simp [expandInline, projB, insIds, createdEvs]
+  | cons e es ih =>
+    intro nB
+    simp only [expandInline]
+    split
+    · obtain ⟨h1, h2, h3⟩ := ih (nB + 1)
+      have hk : (expandInline c LB L es (nB + 1)).2 - nB = ((expandInline c LB L es (nB + 1)).2 - (nB + 1)) + 1 := by omega
+      refine ⟨by simp only; omega, ?_, ?_⟩
+      · simp only [projB_consa, projB_append, insIds_append, insIds_bConstruct, insIds_bCreated, h2, List.nil_append]
+        rw [hk, List.range'_succ]; rfl
+      · simp only [projB_consa, projB_append, insIds_append, createdEvs_append, insIds_bConstruct, insIds_bCreated,
+          createdEvs_bConstruct, createdEvs_bCreated ℓ LB hℓ, h3, List.nil_append]
+    · obtain ⟨h1, h2, h3⟩ := ih nB
+      exact ⟨h1, by simpa [projB_consa] using h2, by simpa [projB_consa] using h3⟩
+
+
+theorem range_cat (a b c : Nat) (h1 : a ≤ b) (h2 : b ≤ c) :
+    List.range' a (b - a) ++ List.range' b (c - b) = List.range' a (c - a) := by
+  have h := List.range'_append (s := a) (m := b - a) (n := c - b) (step := 1)
+  have hb : a + 1 * (b - a) = b := by omega
+  have hc : b - a + (c - b) = c - a := by omega
+  rw [hb, hc] at h
+  exact h
+
+/-- **every row created from inside a listener or a callback is inserted once and gets its
+    RowCreatedSignal exactly once** (per listener `ℓ` of its class), whatever operation triggered it -/
+theorem stepX_B (ℓ : Nat) (c : Cfg) (LB : List Listener) (hℓ : ℓ ∈ recipients .created 0 LB) (s : State) (nB : Nat) (op : Op) :
+    nB ≤ (stepX c LB s nB op).2
+    ∧ insIds (projB (stepX c LB s nB op).1.2.1) = List.range' nB ((stepX c LB s nB op).2 - nB)
+    ∧ createdEvs ℓ (projB (stepX c LB s nB op).1.2.1) = insIds (projB (stepX c LB s nB op).1.2.1) := by
+  have inl : ∀ (q : State × List Entry × Out),
+      nB ≤ (expandInline c LB c.listeners q.2.1 nB).2
+      ∧ insIds (projB (expandInline c LB c.listeners q.2.1 nB).1) = List.range' nB ((expandInline c LB c.listeners q.2.1 nB).2 - nB)
+      ∧ createdEvs ℓ (projB (expandInline c LB c.listeners q.2.1 nB).1) = insIds (projB (expandInline c LB c.listeners q.2.1 nB).1) :=
+    fun q => expandInline_B ℓ c LB c.listeners hℓ q.2.1 nB
+  cases op with
+  | create kw =>
+    simp only [stepX, opCreateX]
+    have e1 := expandNested_B ℓ c LB c.listeners (deliver .create none 0 c.listeners kw []).2.2 nB
+    generalize expandNested c LB c.listeners (deliver .create none 0 c.listeners kw []).2.2 nB = x1 at e1
+    obtain ⟨a1, a2, a3, a4⟩ := e1
+    have f1 := flush_B ℓ LB hℓ x1.2.1
+    split
+    · simp only [projB_append, insIds_append, createdEvs_append, f1.1, f1.2, a2, a4, List.append_nil, List.nil_append]
+      exact ⟨a1, trivial, a3⟩
+    · split
+      · simp only [projB_append, insIds_append, createdEvs_append, f1.1, f1.2, a2, a4, List.append_nil, List.nil_append]
+        exact ⟨a1, trivial, a3⟩
+      · have e2 := expandNested_B ℓ c LB c.listeners
+          ((deliver .create none 0 c.listeners kw []).2.1.map (fun p => Entry.post p s.nextId)) x1.2.2
+        generalize expandNested c LB c.listeners
+          ((deliver .create none 0 c.listeners kw []).2.1.map (fun p => Entry.post p s.nextId)) x1.2.2 = x2 at e2
+        obtain ⟨b1, b2, b3, b4⟩ := e2
+        have e3 := expandNested_B ℓ c LB c.listeners
+          ((deliver .created (some s.nextId) 0 c.listeners [] []).2.2 ++
+            (deliver .created (some s.nextId) 0 c.listeners [] []).2.1.map (fun p => Entry.post p s.nextId)) x2.2.2
+        generalize expandNested c LB c.listeners
+          ((deliver .created (some s.nextId) 0 c.listeners [] []).2.2 ++
+            (deliver .created (some s.nextId) 0 c.listeners [] []).2.1.map (fun p => Entry.post p s.nextId)) x2.2.2 = x3 at e3
+        obtain ⟨c1, c2, c3, c4⟩ := e3
+        have f2 := flush_B ℓ LB hℓ x2.2.1
+        have f3 := flush_B ℓ LB hℓ x3.2.1
+        simp only [projB_append, projB_consa, insIds_append, createdEvs_append, f1.1, f1.2, f2.1, f2.2, f3.1, f3.2,
+          a2, a4, b2, b4, c2, c4, List.append_nil, List.nil_append]
+        rw [a3, b3, c3]
+        have r12 := range_cat nB x1.2.2 x2.2.2 a1 b1
+        have r13 := range_cat nB x2.2.2 x3.2.2 (by omega) c1
+        refine ⟨by omega, ?_, ?_⟩
+        · rw [← List.append_assoc, r12, r13]
+        · rfl
+  | assign h k v => exact inl _
+  | set h kw => exact inl _
+  | syncUpdate h => exact inl _
+  | sync h => exact inl _
+  | destroy h => exact inl _
+  | fetch h => exact inl _
+  | select => exact inl _
+
+/-- the same for whole histories: the `B` rows created by the listeners of a history are
+    `nB, nB+1, …`, each inserted once, each announced to `ℓ` exactly once, in the same order -/
+theorem runX_B (ℓ : Nat) (c : Cfg) (LB : List Listener) (hℓ : ℓ ∈ recipients .created 0 LB) (ops : List Op) :
+    ∀ (s : State) (nB : Nat), nB ≤ (runX c LB s nB ops).1.2
+      ∧ insIds (projB (runX c LB s nB ops).2) = List.range' nB ((runX c LB s nB ops).1.2 - nB)
+      ∧ createdEvs ℓ (projB (runX c LB s nB ops).2) = insIds (projB (runX c LB s nB ops).2) := by
+  induction ops with
+  | nil => intro s nB; simp [runX, projB, insIds, createdEvs]
+  | cons op ops ih =>
+    intro s nB
+    simp only [runX, projB_append, insIds_append, createdEvs_append]
+    obtain ⟨h1, h2, h3⟩ := stepX_B ℓ c LB hℓ s nB op
+    obtain ⟨g1, g2, g3⟩ := ih (stepX c LB s nB op).1.1 (stepX c LB s nB op).2
+    refine ⟨by omega, ?_, by rw [h3, g3]⟩
+    rw [h2, g2, range_cat nB _ _ h1 g1]
+
+/-- and the class's own log of a history is the one without spawning listeners -/
+theorem runX_projA (c : Cfg) (LB : List Listener) (ops : List Op) :
+    ∀ (s : State) (nB : Nat), (runX c LB s nB ops).1.1 = (run c s ops).1 ∧ projA (runX c LB s nB ops).2 = (run c s ops).2 := by
+  induction ops with
+  | nil => intro s nB; exact ⟨rfl, rfl⟩
+  | cons op ops ih =>
+    intro s nB
+    obtain ⟨h1, h2, _⟩ := stepX_projA c LB s nB op
+    simp only [runX, run, projA_append, h2]
+    rw [h1]
+    exact ⟨(ih _ _).1, by rw [(ih _ _).2]⟩
+
+end SqlObjVerif.Events
